@@ -3,7 +3,7 @@ import ast
 import os
 from pyvc.api import *
 
-SPEC_IMPORTS = ['contracts.common']
+SPEC_IMPORTS = ['contracts.common', 'contracts.c08']
 SPEC_FUNCTIONS = []
 
 _CS = Obj('CS')
@@ -372,8 +372,23 @@ def structural_listener(repo):
                       'never as themselves'}]
 
 
-STRUCTURAL = [structural_cleanup, structural_queue, structural_listener]
+def _no_survivors(repo):
+    """every later Script behaves as if the crash had not happened: nothing a disturbed query computed or remembered may
+    outlive its Script - the inventory of process-global mutable state (shared with C08) must not grow"""
+    from contracts import c08
+    return [r for r in c08.structural_state(repo)
+            if r['id'] in ('global-state:no-unregistered', 'script-init', 'state-owned-caches')]
+
+
+STRUCTURAL = [structural_cleanup, structural_queue, structural_listener, _no_survivors]
 NOT_DECIDED = ['"no query hangs" (liveness: a helper that is alive but stuck blocks pickle_load forever)',
                'file-descriptor accounting at OS level', 'true concurrency of the stderr thread / __del__ inside run()',
                'Listener side (__main__, _run): contracts pending']
 TRUSTED = [_io_note]
+
+
+def dynamic_contracts(repo):
+    """values inferred by one Script are bound to that Script's helper: the time-limited signature cache must never hand
+    them to a later Script (its key is unique per call - contract shared with C08)"""
+    from contracts import c08
+    return [c08._sig_key]
